@@ -1,6 +1,7 @@
 package props
 
 import (
+	"encoding/hex"
 	"fmt"
 	"math/big"
 	"sort"
@@ -19,6 +20,7 @@ import (
 	"pgregory.net/rapid"
 
 	fxtypes "github.com/functionx/fx-core/v8/types"
+	crosschaintypes "github.com/functionx/fx-core/v8/x/crosschain/types"
 	erc20types "github.com/functionx/fx-core/v8/x/erc20/types"
 	fxgov "github.com/functionx/fx-core/v8/x/gov"
 	fxgovtypes "github.com/functionx/fx-core/v8/x/gov/types"
@@ -64,7 +66,7 @@ type c15Case struct {
 
 type collectionsPairU64Acc = collections.Pair[uint64, sdk.AccAddress]
 
-var c15Kinds = []string{"text", "spend", "spend", "spend", "spend2", "spend2", "toggle", "toggle", "toggle2bad", "toggle2bad", "switch", "mixed"}
+var c15Kinds = []string{"text", "spend", "spend", "spend", "spend2", "spend2", "toggle", "toggle", "toggle2bad", "toggle2bad", "switch", "mixed", "oracles2panic", "oracles2panic"}
 
 func genC15(t *rapid.T) c15Case {
 	c := c15Case{
@@ -140,6 +142,7 @@ type c15Prop struct {
 	VoteEnd    time.Time
 	Votes      map[string]govv1.WeightedVoteOptions
 	Token      string // toggle kinds
+	OracleAdd  string // oracle-list kinds: the address the first message adds to the bsc list
 }
 
 type c15Spend struct {
@@ -307,6 +310,7 @@ func runC15(c c15Case, rec *ev.Recorder) *Failure {
 	urls := []string{spendURL, toggleURL, switchURL, ""}
 
 	var props []*c15Prop
+	corrupted := false
 	voterKey := func(u int) sim.Key {
 		if u >= 4 {
 			return f.ValKeys[(u-4)%len(f.ValKeys)]
@@ -494,6 +498,21 @@ func runC15(c c15Case, rec *ev.Recorder) *Failure {
 				spend(amount)
 				msgs = append(msgs, &erc20types.MsgToggleTokenConversion{Authority: gov, Token: "usdt"})
 				p.TypeURL = spendURL
+			case "oracles2panic":
+				// two oracle-list updates; the second one's handler panics on a stored list that a
+				// governance raw-store write made undecodable beforehand
+				if !corrupted {
+					cur := ctx.KVStore(f.App.GetKey("tron")).Get(crosschaintypes.ProposalOracleKey)
+					if r := f.RunMsg(ctx, &fxgovtypes.MsgUpdateStore{Authority: gov, UpdateStores: []fxgovtypes.UpdateStore{{Space: "tron", Key: hex.EncodeToString(crosschaintypes.ProposalOracleKey), OldValue: hex.EncodeToString(cur), Value: "ff"}}}); !r.OK() {
+						return failf("harness", "%s: corrupt stored list: %v", desc, r.Err)
+					}
+					corrupted = true
+				}
+				bscList, _ := f.Keeper("bsc").GetProposalOracle(ctx)
+				p.OracleAdd = authtypes.NewModuleAddress(fmt.Sprintf("verif-c15-oracle-%d", si)).String()
+				msgs = append(msgs, &crosschaintypes.MsgUpdateChainOracles{ChainName: "bsc", Authority: gov, Oracles: append(append([]string{}, bscList.Oracles...), p.OracleAdd)},
+					&crosschaintypes.MsgUpdateChainOracles{ChainName: "tron", Authority: gov, Oracles: []string{p.OracleAdd}})
+				p.TypeURL = sdk.MsgTypeURL(&crosschaintypes.MsgUpdateChainOracles{})
 			case "switch":
 				msgs = append(msgs, &fxgovtypes.MsgUpdateSwitchParams{Authority: gov, Params: fxgovtypes.SwitchParams{DisableMsgTypes: []string{fmt.Sprintf("/verif.Nothing%d", si)}}})
 				p.TypeURL = switchURL
@@ -813,7 +832,7 @@ func runC15(c c15Case, rec *ev.Recorder) *Failure {
 					if need.GT(pool) {
 						ok = false
 					}
-				case "toggle2bad":
+				case "toggle2bad", "oracles2panic":
 					ok = false
 				}
 				if ok {
@@ -834,6 +853,12 @@ func runC15(c c15Case, rec *ev.Recorder) *Failure {
 					if !got.Equal(want) {
 						return failf("C15/partial-execution/"+p.Kind, "%s: proposal %d (%s) ended as %s but the recipient of its spend of %s holds %s", desc, p.ID, p.Kind, p.Status, s.Amt, got)
 					}
+				}
+				if p.OracleAdd != "" {
+					if list, _ := f.Keeper("bsc").GetProposalOracle(ctx); strings.Contains(strings.Join(list.Oracles, ","), p.OracleAdd) != ok {
+						return failf("C15/partial-execution/"+p.Kind, "%s: proposal %d (%s) ended as %s (%s); its first message's oracle %s is in the bsc list: %v", desc, p.ID, p.Kind, p.Status, sp.FailedReason, p.OracleAdd, !ok)
+					}
+					labels["panicking-message"] = true
 				}
 				if p.Token != "" && ok {
 					enabledBefore[p.Token] = !enabledBefore[p.Token] // expected state after this proposal
